@@ -945,6 +945,7 @@ def run(ctx):
     cases = []
     cases += gen_gauss_prior(ctx, st)
     cases += gen_gauss_batch(ctx, st)
+    cases += gen_gauss_scale(ctx, st)
     cases += gen_gmrf(ctx, st)
     cases += gen_lik(ctx, st)
     cases += gen_sum(ctx, st)
@@ -1037,6 +1038,47 @@ def coq_gparam(meta):
     if form == "sqrtcov":
         return p, f_diag([1 / (a * a) for a in diag])
     return p, f_diag([a * a for a in diag])
+
+
+def gen_gauss_scale(ctx, st):
+    """magnitude sweep: the covariance-type parameter scaled by 2^k and mean / point by 2^j, compared RELATIVELY entry by entry
+    (no absolute floor), so that a comparison against an absolute threshold anywhere on the path shows up"""
+    rng = ctx.rng
+    out = []
+    for form in ("cov", "prec", "sqrtcov", "sqrtprec"):
+        for ptype in ("scalar", "vector", "diagmatrix", "matrix"):
+            for (k, j) in ((-40, 0), (30, 0), (0, -25), (0, 20), (-20, -20), (24, 16)) if ctx.thorough else ((-40, -25), (30, 20), (-20, 16)):
+                n = rng.randint(2, 3)
+                val, _, _ = gauss_param(rng, form, ptype, n)
+                c, d = Fraction(2) ** k, Fraction(2) ** j
+                raw = raw_param(val, ptype)
+                raw = P_(F(raw) * c) if ptype == "scalar" else pv([F(a) * c for a in raw]) if ptype == "vector" else pm([[F(a) * c for a in r] for r in raw])
+                x = [a * d for a in rvec(rng, n, nonzero=True)]
+                m = [a * d for a in rvec(rng, n, nonzero=True)]
+                if all(a == b for a, b in zip(x, m)):
+                    x[0] += d
+                meta = {"fam": "gauss", "form": form, "ptype": ptype, "param": raw, "n": n, "mean": ["v", pv(m)], "x": pv(x), "scale": [k, j],
+                        "cellname": "gauss/scale/%s-%s/param*2^%d/point*2^%d" % (form, ptype, k, j)}
+                out.append(case_gauss_scale(meta, st))
+    return out
+
+
+def case_gauss_scale(meta, st):
+    obj, dim = build(meta)
+    x = fa(meta["x"])
+    o = observe(lambda: obj.gradient(x))
+    pcoq, P = coq_gparam(meta)
+    g = o[1] if o[0] == "vec" else []
+    expr = "check_gauss_prior_rel %s %s %s %s %s %s" % (FORM_COQ[meta["form"]], pcoq, cqm(P), cqv(mean_list(meta["mean"])), cqv(uv(meta["x"])), cqvec(g))
+    # oracle: exact rational -P (x - m) from the harness's own numbers, relative 1e-9 (finite differences lose all digits at these magnitudes)
+    d, sig = None, ""
+    e = [a - b for a, b in zip(uv(meta["x"]), mean_list(meta["mean"]))]
+    ref = [-sum(P[i][t] * e[t] for t in range(dim)) for i in range(dim)]
+    size = max(abs(rv) for rv in ref)
+    if o[0] != "vec" or len(g) != dim or any(abs(frac(gv) - rv) > Fraction(1, 10 ** 9) * size for gv, rv in zip(g, ref)):
+        d = "Gaussian(%s scaled by 2^%d, points by 2^%d).gradient = %r but -P(x - mean) = %s" % (meta["form"], meta["scale"][0], meta["scale"][1], g or o[0], [float(v) for v in ref])
+        sig = "C03|%s|scale" % meta["cellname"].split("/param")[0]
+    return Case(expr=expr, meta=meta, cell=meta["cellname"], kind="EXACT", impl_fail=d, signature=sig)
 
 
 def gen_gauss_batch(ctx, st):
@@ -1368,6 +1410,22 @@ def gen_sum_factors(ctx, st):
 
 
 def case_sum(meta, st):
+    if "post_hist" not in meta and not meta.get("_checked"):
+        rs = random.Random(len(json.dumps(meta["parts"], default=str)))
+        for _ in range(30):
+            comps0 = build_sum(meta)[1]
+            vals = []
+            for c in comps0:
+                if type(c).__name__ == "EvaluatedDensity":
+                    continue
+                try:
+                    vals += [logd_of(c)(fa(meta["x"])), logd_of(c)(fa(meta["x1"]))]
+                except Exception:
+                    pass
+            if all(math.isfinite(v) and abs(v) < 500 for v in vals):
+                break
+            meta["x"], meta["x1"] = pv(rvec(rs, meta["n"], -1, 1)), pv(rvec(rs, meta["n"], -1, 1))
+        meta["_checked"] = True
     obj, comps = build_sum(meta)
     dim = meta["n"]
     x, x1 = fa(meta["x"]), fa(meta["x1"])
@@ -2234,6 +2292,8 @@ def _rerun(meta):
     """re-run one stored case: list of fresh Case objects"""
     st = state()
     fam = meta.get("fam")
+    if fam == "gauss" and meta.get("scale"):
+        return [case_gauss_scale(meta, st)]
     if fam == "gauss" and meta.get("batch"):
         return [case_gauss_batch(meta, st)]
     if fam == "gauss":
